@@ -130,6 +130,11 @@ class Machine(RuleBasedStateMachine):
             nodes[".reuse/dep5"] = ("text", b"Format: https://www.debian.org/doc/packaging-manuals/copyright-format/1.0/\n\nFiles: src/*\nCopyright: 2020 Jane\nLicense: MIT\n")
         elif glob == "toml":
             nodes["REUSE.toml"] = ("text", b'version = 1\n[[annotations]]\npath = "src/**"\nSPDX-FileCopyrightText = "2020 Jane"\nSPDX-License-Identifier = "MIT"\n')
+        # a sibling whose name merely begins like an existing directory's (src / src-old): not below it
+        tops = sorted({p.split("/")[0] for p, v in nodes.items() if "/" in p and v[0] == "text" and p.split("/")[0] not in ("LICENSES", ".reuse", "subprojects") and not p.startswith(".")})
+        if tops and len(ro) % 2 == 0:
+            nodes.setdefault(tops[0] + "-old/sibling.py", ("text", b"x = 1\n"))
+            nodes.setdefault(tops[0] + "2.py", ("text", b"x = 1\n"))
         spec["nodes"] = nodes
         self.has_git = bool(spec["git"])
         self.glob = glob
